@@ -115,7 +115,8 @@ def run_one(seed, dec):
         try:
             msgs = [r.msg for r in rc.tap.records]
             # C04 is about who is whose child: no field values, no completeness, eliot's own reports float
-            O.check_forest(msgs, rc.model, order_free=False, lenient=True, fields=False, require_complete=False)
+            O.check_forest(msgs, rc.model, order_free=False, lenient=True, fields=False, require_complete=False,
+                           status=False)
         except Violation as v:
             rc.fail_v(v)
     rc.faults["body_raise"] = sum(1 for a in rc.model.all_actions() if a.outcome == "failed")
